@@ -60,7 +60,24 @@ def _body(draw, n, depth, measure, visible, symbolic):
     items = []
     local = []  # names measured so far in this body
     for _ in range(draw(st.integers(1, 4 if depth else 5))):
-        kind = draw(st.sampled_from(["g", "g", "g", "m", "m", "cg", "cg", "sub", "sub"]))
+        kind = draw(st.sampled_from(["g", "g", "g", "m", "m", "cg", "cg", "sub", "sub", "csub"]))
+        if kind == "csub":
+            if not (measure and local):
+                kind = "g"
+            else:
+                # a classically controlled sub-circuit whose body is itself controlled by a key of this scope
+                name = draw(st.sampled_from(sorted(local)))
+                width = {"a": 1, "b": min(2, n), "m": 1, "x": 1, "y": min(2, n)}[name]
+                g1 = draw(_gate_item(n, False))
+                inner = [{"k": "cg", "g": g1["g"], "w": g1["w"], "conds": [{"t": "key", "key": name, "index": -1}]}]
+                if draw(st.booleans()):
+                    inner.insert(0, draw(_gate_item(n, False)))
+                items.append({"k": "sub", "body": inner, "reps": draw(st.sampled_from([1, 1, 2])), "ids": None,
+                              "perm": list(draw(st.permutations(list(range(n))))) if draw(st.booleans()) else list(range(n)),
+                              "kmap": {}, "ppath": [], "params": {}, "build": "ctor", "frozen_tag": False,
+                              "conds": [{"t": "eq", "key": name, "val": draw(st.integers(0, 2 ** width - 1))} if draw(st.booleans())
+                                        else {"t": "key", "key": name, "index": -1}]})
+                continue
         if kind == "sub" and depth <= 0:
             kind = "g"
         if kind in ("m", "cg") and not measure:
@@ -95,6 +112,14 @@ def _body(draw, n, depth, measure, visible, symbolic):
             items.append({"k": "cg", "g": g["g"], "w": g["w"], "conds": [cond]})
         else:
             sub = draw(_sub(n, depth - 1, measure, sorted(set(local + visible)), symbolic))
+            if measure and (local or visible) and not _has_m(sub["body"]) and draw(st.integers(0, 1)) == 0:
+                # a classically controlled sub-circuit: the condition is evaluated once, before the block
+                name = draw(st.sampled_from(sorted(set(local + visible))))
+                width = {"a": 1, "b": min(2, n), "m": 1, "x": 1, "y": min(2, n)}[name]
+                if draw(st.booleans()):
+                    sub["conds"] = [{"t": "key", "key": name, "index": -1}]
+                else:
+                    sub["conds"] = [{"t": "eq", "key": name, "val": draw(st.integers(0, 2 ** width - 1))}]
             items.append(sub)
             # names measured inside become visible to later siblings only when they are not hidden behind ids/paths
             if not sub["ids"] and not sub["ppath"]:
@@ -114,8 +139,12 @@ def _measured_names(sub):
     return out
 
 
+def _has_m(items):
+    return any(it["k"] == "m" or (it["k"] == "sub" and _has_m(it["body"])) for it in items)
+
+
 def _has_measure(items):
-    return any(it["k"] in ("m", "cg") or (it["k"] == "sub" and _has_measure(it["body"])) for it in items)
+    return any(it["k"] in ("m", "cg") or (it["k"] == "sub" and (it.get("conds") or _has_measure(it["body"]))) for it in items)
 
 
 @st.composite
@@ -134,7 +163,7 @@ def _sub(draw, n, depth, measure, visible, symbolic):
     # negative repetitions only for measurement-free bodies (the inverse needs a unitary body)
     reps = draw(st.sampled_from([1, 1, 2, 2, 3, 0] + ([] if has_m else [-1, -2])))
     ids = None
-    if abs(reps) >= 1 and draw(st.integers(0, 2)) == 0:
+    if abs(reps) >= 1 and draw(st.integers(0, 2 if not measure else 1)) == 0:
         ids = draw(st.sampled_from(["default", "custom"]))
     perm = list(draw(st.permutations(list(range(n))))) if draw(st.booleans()) else list(range(n))
     params = {}
@@ -203,7 +232,10 @@ def _build_items(items, qs):
             op = G.build_gate(it["g"]).on(*[qs[i] for i in it["w"]])
             ops.append(op.with_classical_controls(*[MC.build_condition(c) for c in it["conds"]]))
         else:
-            ops.append(_build_sub(it, qs))
+            op = _build_sub(it, qs)
+            if it.get("conds"):
+                op = op.with_classical_controls(*[MC.build_condition(c) for c in it["conds"]])
+            ops.append(op)
     return ops
 
 
@@ -226,7 +258,12 @@ def _build_sub(sub, qs):
         if s == "q" and qmap:
             op = op.with_qubit_mapping(qmap)
         elif s == "k" and sub["kmap"]:
-            op = op.with_measurement_key_mapping(dict(sub["kmap"]))
+            try:
+                op = op.with_measurement_key_mapping(dict(sub["kmap"]))
+            except ValueError as e:
+                if "Collision in measurement key map" in str(e):
+                    raise Reject("documented ValueError: key map merges two keys")
+                raise
         elif s == "p" and params:
             op = op.with_params(params)
         elif s == "r":
@@ -247,6 +284,30 @@ class _Unbound(Exception):
     pass
 
 
+def _lookup(measured, path, name, has_rid=False):
+    """Which measurement a control on ``name`` refers to (absolute key string) - lexical scoping as documented:
+    with a repetition id the own-iteration key (path+name) counts only if measured earlier in THIS iteration; otherwise
+    the innermost enclosing prefix of the parent path whose key has been measured before (earlier in this iteration's
+    text or before the sub-circuit in enclosing scopes).  ``measured`` is a stack of key sets, innermost last."""
+    if has_rid:
+        q = ":".join(tuple(path) + (name,))
+        if q in measured[-1]:
+            return q
+        path = path[:-1]
+    # prefixed candidates bind only to keys an enclosing sub-circuit has measured before (its "extern" keys); keys measured
+    # at the top level of the circuit are only reachable as the bare name, which is resolved when the operation runs
+    for j in range(len(path), 0, -1):
+        q = ":".join(tuple(path[:j]) + (name,))
+        if any(q in lvl for lvl in measured[1:]):
+            return q
+    if name in _DYN[0]:
+        return name
+    return None
+
+
+_DYN = [set()]  # every absolute key measured so far in execution order (reset per reference run)
+
+
 def _resolve_sym(name, chain):
     """chain: list of param dicts, innermost first.  Returns number or raises KeyError if unresolved."""
     cur = name
@@ -258,7 +319,7 @@ def _resolve_sym(name, chain):
     return cur
 
 
-def _ref_flat(items, n, wmap, kmaps, path, chain, measured, out, widths):
+def _ref_flat(items, n, wmap, kmaps, path, chain, measured, out, widths, has_rid=False):
     """Appends IR ops (vf.ref.interp) with fully qualified key strings to ``out``."""
     for it in items:
         k = it["k"]
@@ -277,12 +338,7 @@ def _ref_flat(items, n, wmap, kmaps, path, chain, measured, out, widths):
                     name = c["key"]
                     for km in kmaps:
                         name = km.get(name, name)
-                    found = None
-                    for j in range(len(path), -1, -1):
-                        q = ":".join(tuple(path[:j]) + (name,))
-                        if q in measured:
-                            found = q
-                            break
+                    found = _lookup(measured, path, name, has_rid)
                     if found is None:
                         raise _Unbound(name)
                     cc = dict(c, key=found)
@@ -294,7 +350,8 @@ def _ref_flat(items, n, wmap, kmaps, path, chain, measured, out, widths):
             for km in kmaps:
                 name = km.get(name, name)
             q = ":".join(tuple(path) + (name,))
-            measured.add(q)
+            measured[-1].add(q)
+            _DYN[0].add(q)
             widths[q] = len(it["w"])
             out.append({"t": "m", "key": q, "ax": [wmap[i] for i in it["w"]], "inv": list(it.get("inv") or []), "conf": []})
         else:
@@ -305,9 +362,32 @@ def _ref_flat(items, n, wmap, kmaps, path, chain, measured, out, widths):
             body = sub["body"]
             if reps < 0:
                 body = _inverse_body(body)
+            target = out
+            if sub.get("conds"):
+                conds = []
+                for c in sub["conds"]:
+                    name = c["key"]
+                    for km in kmaps:
+                        name = km.get(name, name)
+                    found = _lookup(measured, path, name, has_rid)
+                    if found is None:
+                        raise _Unbound(name)
+                    conds.append(MC.ir_condition(dict(c, key=found), {found: (2,) * widths[found]}))
+                target = []
+                out.append({"t": "cb", "conds": conds, "ops": target})
+            # Static (lexical) binding, as in a textual unrolling of ONE loop body: inside an iteration a control sees the keys
+            # measured earlier in that iteration's text and the keys measured before the whole sub-circuit in enclosing
+            # scopes; keys of earlier iterations of the same sub-circuit only become visible after the sub-circuit.
+            done = set()
             for j in range(abs(reps)):
                 new_path = list(path) + list(sub["ppath"]) + ([ids[j]] if ids is not None else [])
-                _ref_flat(body, n, new_wmap, [sub["kmap"]] + kmaps, new_path, [sub["params"]] + chain, measured, out, widths)
+                measured.append(set())
+                try:
+                    _ref_flat(body, n, new_wmap, [sub["kmap"]] + kmaps, new_path, [sub["params"]] + chain, measured, target, widths,
+                              has_rid=ids is not None)
+                finally:
+                    done |= measured.pop()
+            measured[-1] |= done
 
 
 def _inverse_body(body):
@@ -324,7 +404,8 @@ def _inverse_body(body):
 
 def _flat_reference(r):
     out = []
-    measured = set()
+    measured = [set()]
+    _DYN[0] = set()
     widths = {}
     items = r["items"]
     try:
@@ -333,7 +414,7 @@ def _flat_reference(r):
         raise Reject(f"control key not bound: {e}")
     except KeyError as e:
         raise Reject(f"unresolved symbol {e}")
-    return out, measured, widths
+    return out, set().union(*measured), widths
 
 
 # ------------------------------------------------------------------------------------------------ oracles
@@ -355,6 +436,7 @@ def _features(r):
                 f["ids"] |= it["ids"] is not None
                 f["ppath"] |= bool(it["ppath"])
                 f["inner_cond"] |= any(x["k"] == "cg" for x in it["body"])
+                f["controlled_sub"] = f.get("controlled_sub", False) or bool(it.get("conds"))
                 walk(it["body"], d + 1)
 
     walk(r["items"], 0)
@@ -414,7 +496,8 @@ def oracle_unitary(r):
             continue
         rop = cirq.resolve_parameters(op, resolver)
         sub_flat = []
-        _ref_flat([it], n, list(range(n)), [], [], [r["top_params"]], set(), sub_flat, {})
+        _DYN[0] = set()
+        _ref_flat([it], n, list(range(n)), [], [], [r["top_params"]], [set()], sub_flat, {})
         Us = _flat_unitary(sub_flat, n)
         used = sorted(set(rop.qubits), key=qs.index)
         for nm, c in (("mapped_circuit(deep=True)", rop.mapped_circuit(deep=True)), ("mapped_circuit()", rop.mapped_circuit()),
@@ -673,14 +756,57 @@ def oracle_until(r):
 
 
 # The whole sub-check is one known finding (see known_findings.json, C06-F17): excluded from generation while listed.
-KNOWN_FEATURES = {"C12_unroll_greedy_earliest_reorders": lambda sub, recipe: sub == "unroll_greedy_earliest"}
+def _has_csub(items):
+    return any(it["k"] == "sub" and (it.get("conds") or _has_csub(it["body"])) for it in items)
+
+
+def _feat_unroll_stale_extern(sub_name, recipe):
+    """a sub-circuit whose keys get a path prefix (explicit parent_path or repetition ids) that contains a classically
+    controlled sub-circuit, nested inside a sub-circuit with a measurement-key map"""
+    if sub_name != "keys_distribution":
+        return False
+
+    def walk(items, under_kmap):
+        for it in items:
+            if it["k"] != "sub":
+                continue
+            if under_kmap and (it["ppath"] or it["ids"]) and _has_csub(it["body"]):
+                return True
+            if walk(it["body"], under_kmap or bool(it["kmap"])):
+                return True
+        return False
+
+    return walk(recipe["items"], False)
+
+
+KNOWN_FEATURES = {
+    "C12_unroll_greedy_earliest_reorders": lambda sub, recipe: sub == "unroll_greedy_earliest",
+    "C12_unroll_deep_stale_extern_keys": _feat_unroll_stale_extern,
+}
+
+def _documented_rejections(oracle):
+    """CircuitOperation.with_measurement_key_mapping documents a ValueError when a key map merges two measurement keys of a
+    (nested) sub-circuit; an outer key map is applied to inner CircuitOperations lazily, so it can surface anywhere."""
+
+    def wrapped(r):
+        try:
+            return oracle(r)
+        except ValueError as e:
+            if "Collision in measurement key map" in str(e):
+                raise Reject("documented ValueError: key map merges two keys of a nested sub-circuit")
+            raise
+
+    return wrapped
+
+
+oracle_keys = _documented_rejections(oracle_keys)
 
 SUBCHECKS = [
     SubCheck("unitary", _case(measure=False), oracle_unitary, quick=500, thorough=20000, shards_quick=6,
              frozen_keys=("names", "perm", "n")),
     SubCheck("unroll_greedy_earliest", _case(measure=False), oracle_unroll_greedy_earliest, quick=60, thorough=2000, shards_quick=1, shards_thorough=2,
              frozen_keys=("names", "perm", "n")),
-    SubCheck("keys_distribution", _case(measure=True, symbolic=False, max_depth=2), oracle_keys, quick=500, thorough=20000, shards_quick=6,
+    SubCheck("keys_distribution", _case(measure=True, symbolic=False, max_depth=2), oracle_keys, quick=1200, thorough=30000, shards_quick=8,
              frozen_keys=("names", "perm", "n")),
     SubCheck("repeat_until", _until_case(), oracle_until, quick=200, thorough=5000, shards_quick=2),
 ]
